@@ -1300,6 +1300,10 @@ def scenarios_names():
         ('delete trait | delete same trait | put trait X', {
             'A': del_trait('CUSTOM_UNUSED'), 'B': del_trait('CUSTOM_UNUSED'),
             'C': put_trait('CUSTOM_TX')}),
+        ('delete trait | delete same trait | re-create it | associate it', {
+            'A': del_trait('CUSTOM_UNUSED'), 'B': del_trait('CUSTOM_UNUSED'),
+            'C': put_trait('CUSTOM_UNUSED'),
+            'D': put_traits(E, 'cur', ['CUSTOM_UNUSED'])}),
         ('put trait X | put trait X', {'A': put_trait('CUSTOM_TX'),
                                        'B': put_trait('CUSTOM_TX')}),
         ('put trait X | put trait Y', {'A': put_trait('CUSTOM_TX'),
